@@ -612,7 +612,7 @@ def judge(ctx, p, rng, dirpath):
                         spec = None
                 except ovr.NoSuchSection:
                     spec = None
-        for included in (False, True, "nourl", "given-url",
+        for included in (False, True, "nourl", "given-url", "after-inc",
                          rng.choice(["fobj", "fobj-rel", "fobj-bytes"])) + (
                 ("override",) if spec else ()):
             marked = list(lines)
@@ -629,9 +629,18 @@ def judge(ctx, p, rng, dirpath):
                 # the culprit in an included resource (when the text can be
                 # cut), the outer one handed over as an open file
                 layout = _cut_around(rng, marked, ok_idx[0])
+            elif included == "after-inc" and rng.random() < 0.4:
+                layout = _cut_around(rng, marked, ok_idx[0])
             if layout is None:
                 layout = cuts.Layout()
                 layout.files["b/main.conf"] = marked
+            if included == "after-inc":
+                # the resource that holds the culprit has read (and left)
+                # an included resource before it gets to the culprit
+                if not _healthy_include_before(rng, layout):
+                    res.count("no_room_for_an_earlier_include")
+                    continue
+                res.count("judged_after_an_earlier_include")
             res.evaluations += 1
             shutil.rmtree(dirpath, ignore_errors=True)
             main = layout.write(dirpath)
@@ -692,6 +701,35 @@ def _syntax_expect(text):
     if out[0] in ("syntax", "subst-syntax", "subst-missing", "reject-any"):
         return ("reject", out[0], "")
     return ("accept",)
+
+
+def _healthy_include_before(rng, layout):
+    """Give the file that holds the (first) marked line an %include of a
+    healthy fragment somewhere before that line: a balanced run of its own
+    earlier lines, or a fragment of comment lines.  The fragment has
+    another number of lines than the position of the culprit."""
+    for path, flines in list(layout.files.items()):
+        ks = [n for n, l in enumerate(flines) if isinstance(l, Marked)]
+        if not ks:
+            continue
+        k = ks[0]
+        ranges = [r for r in cuts.balanced_ranges(flines[:k])
+                  if not any(isinstance(l, tuple) for l in flines[r[0]:r[1]])]
+        frag_path, _ = layout.new_path(rng)
+        if ranges and rng.random() < 0.5:
+            i, j = rng.choice(ranges)
+            layout.files[frag_path] = list(flines[i:j])
+            layout.files[path] = flines[:i] + \
+                [("inc", frag_path, rng.choice(["", " "]))] + flines[j:]
+        else:
+            pos = rng.randint(0, k)
+            n = rng.choice([1, 2, 3, 5, 8, 13, 40])
+            layout.files[frag_path] = ["# line %d of a healthy fragment" % x
+                                       for x in range(n)]
+            layout.files[path] = flines[:pos] + \
+                [("inc", frag_path, rng.choice(["", "\t"]))] + flines[pos:]
+        return True
+    return False
 
 
 def _cut_around(rng, marked, idx):
